@@ -343,13 +343,21 @@ func trackerCall(p *core.Program, info *types.Info, c *ast.CallExpr) string {
 
 // namerRewriter: the function of pkg/namer that rewrites the package paths nested in a reference's name: the one that
 // parses the name with ParseTypeRef (today (*rawNamer).processName; a plain function after a refactoring).
+var namerRewriterCache = map[*core.Program]*core.Func{}
+
 func namerRewriter(p *core.Program) *core.Func {
+	if f, ok := namerRewriterCache[p]; ok {
+		return f
+	}
+	var out *core.Func
 	for _, cs := range callersOf(p, core.G("pkg/types.ParseTypeRef")) {
 		if core.RelPkg(cs.In.Pkg.PkgPath) == "pkg/namer" && cs.In.Body != nil {
-			return cs.In.Root()
+			out = cs.In.Root()
+			break
 		}
 	}
-	return nil
+	namerRewriterCache[p] = out
+	return out
 }
 
 // registerAndName: helpers of pkg/namer whose body is exactly `<tr>.AddType(<t>); return <tr>.LocalNameOf(<p>)` with
